@@ -160,6 +160,15 @@ func segmentFMP4ReadHeader(r io.ReadSeeker) (*fmp4.Init, time.Duration, error) {
 
 	// read ftyp and moov
 
+	fileSize, err := r.Seek(0, io.SeekEnd)
+	if err != nil {
+		return nil, 0, err
+	}
+
+	if uint64(ftypSize)+uint64(moovSize) > uint64(fileSize) {
+		return nil, 0, fmt.Errorf("invalid ftyp or moov box size")
+	}
+
 	_, err = r.Seek(0, io.SeekStart)
 	if err != nil {
 		return nil, 0, err
